@@ -155,6 +155,14 @@ func (r *Run) runHistory(idx int, next func(p *Pool, step int) (Op, bool), onTai
 		if f, okf := fitsOracle(o, cause); okf {
 			line += " " + strconv.FormatInt(f, 10)
 		}
+		if o.Name == "Assign" {
+			// the value check of the attribute is an oracle of the model
+			if out.Err != nil && wrap == "AttributeValue" {
+				line += " " + cause
+			} else {
+				line += " -"
+			}
+		}
 		r.emitOp(o, line)
 		if modelled(o.Name) {
 			fmt.Fprintf(r.trace, "R %s\n", res)
@@ -252,6 +260,9 @@ func main() {
 			if _, has := fitsOracle(o, ""); has && len(o.A) == 3 {
 				o.A = o.A[:2]
 			}
+			if o.Name == "Assign" && len(o.A) > 3 {
+				o.A = o.A[:3]
+			}
 			ops = append(ops, o)
 		}
 		r.runHistory(0, func(p *Pool, step int) (Op, bool) {
@@ -261,16 +272,16 @@ func main() {
 			return Op{}, false
 		}, nil)
 	} else {
-		nHist, nSteps := 500, 60
+		nHist, nSteps := 500, 90
 		if tier == "thorough" {
-			nHist, nSteps = 12000, 70
+			nHist, nSteps = 12000, 100
 		}
 		nHist = envInt("VERIF_HISTORIES", nHist)
 		nSteps = envInt("VERIF_STEPS", nSteps)
 		for hI := 0; hI < nHist; hI++ {
-			g := &Gen{r: &RNG{s: seed*0x9E3779B97F4A7C15 + uint64(hI)*0xD1B54A32D192ED03 + 1}, allowReattach: hI%4 == 3, allowTwoIface: hI%5 == 4, invalidPct: 68, buildSteps: 10}
+			g := &Gen{r: &RNG{s: seed*0x9E3779B97F4A7C15 + uint64(hI)*0xD1B54A32D192ED03 + 1}, allowReattach: hI%4 == 3, allowTwoIface: hI%5 == 4, invalidPct: 88, buildSteps: 10}
 			pre := g.prefix()
-			var queue []Op
+			var queue, pending []Op
 			queued := false
 			r.runHistory(hI+1, func(p *Pool, step int) (Op, bool) {
 				if step < len(pre) {
@@ -286,6 +297,22 @@ func main() {
 				}
 				if step >= len(pre)+nSteps {
 					return Op{}, false
+				}
+				// directed scenarios after the structure-building phase and in the middle
+				rel := step - len(pre)
+				if (rel == 12 || rel == 40 || rel == 65) && len(pending) == 0 {
+					pending = g.scenario(p)
+				}
+				for len(pending) > 0 {
+					o := pending[0]
+					pending = pending[1:]
+					if tn := taintOf(p, o); tn != "" {
+						continue // never trigger an open finding from a script
+					}
+					if badArgs(p, o) {
+						continue
+					}
+					return o, true
 				}
 				return g.nextOp(p), true
 			}, func(t string) { g.taint = t })
